@@ -52,7 +52,7 @@ class JaqalLexer(Lexer):
     # Identifiers and numbers
     IDENTIFIER = r"[a-zA-Z_](\.?[a-zA-Z0-9_])*"
     DOTIDENTIFIER = r"\.([a-zA-Z_](\.?[a-zA-Z0-9_])*)?"
-    NUMBER = r"[-+]?[0-9]*\.[0-9]+([eE][-+]?[0-9]+)?"
+    NUMBER = r"[-+]?([0-9]*\.[0-9]+([eE][-+]?[0-9]+)?|[0-9]+[eE][-+]?[0-9]+)"
     INT = r"[-+]?[0-9]+"
     BININT = r"'[0-1]+'"
 
